@@ -67,7 +67,7 @@ Qed.
 
 Lemma arm_verdict_norm a c : arm_verdict (map norm_arm a) c = arm_verdict a c.
 Proof.
-  induction a as [|[cs|k cs|k|] a IH]; cbn [map norm_arm arm_verdict]; auto;
+  induction a as [|[cs|k cs|k|k|] a IH]; cbn [map norm_arm arm_verdict]; auto;
     try rewrite mem_N_sort; rewrite ?IH; reflexivity.
 Qed.
 
